@@ -160,6 +160,12 @@ Proof. exact added_only_helpers. Qed.
 Theorem a_helper_is_added_only_when_missing : forall tm sc ss t f,
   In f (snd (add_scrub_fields tm sc ss t)) -> has_direct ss f = false.
 Proof. exact added_not_selected. Qed.
+(* no response key of a level is lost by the sanitizer: a field selected directly on a level has a field with its response
+   key in what is left for that level (of several selections of one key the first wins: listed finding) *)
+Theorem selected_response_keys_survive_sanitizing : forall tm sc ss ip a n ty d sub,
+  In (SanField a n ty d sub) ss -> has_alias (fst (sanitize tm sc ss ip)) a.
+Proof. exact selected_response_keys_survive. Qed.
+
 Example c02_sanitize_nonvacuous :
   sanitize SanitizeProofs.ex_tm ex_sc ex_in [] =
   ([SanField "me" "me" "Human" 0 [id_helper; SanField "name" "name" "String" 0 [];
@@ -193,3 +199,4 @@ Print Assumptions the_plan_holds_every_selection_once.
 Print Assumptions helpers_added_to_a_field_are_registered.
 Print Assumptions only_the_two_helpers_are_added.
 Print Assumptions a_helper_is_added_only_when_missing.
+Print Assumptions selected_response_keys_survive_sanitizing.
